@@ -61,7 +61,8 @@ def describe(tier):
              'Transition = one production / next indent string.' % (b['sweeps'], list(KINDS), SMALL, SYNTAXES),
         nontrivial='the abbreviation has at least two elements (relative depth is exercised).',
         bounds=b,
-        assumptions=['text-only nodes and trailing-space conventions are left unspecified (lines are compared right-stripped)'],
+        assumptions=['how a text-only node itself is written, and trailing-space conventions, are left unspecified (lines are compared '
+                     'right-stripped); the lines of the elements after a text-only leaf are compared with those after an element leaf'],
         explanation='Expected lines are computed from the reference tree (never from emmet); the HTML output of the same abbreviation is '
                     'read by the independent lexer for the tree-equality clause.',
     )
@@ -180,6 +181,13 @@ def check(seq, labels, syntax, indent):
             bad.append(('lines:differ-with-output.format-off', dict(abbr=abbr, syntax=syntax, formatted=out[:200], unformatted=out2[:200])))
     except Exception as e:
         bad.append(('exception-format-off:%s' % type(e).__name__, str(e)[:120]))
+    # ... and so does the XHTML self-closing style (it only differs from the HTML style in how HTML writes ` />`)
+    try:
+        out3 = expand(abbr, {'syntax': syntax, 'options': {'output.indent': indent, 'inlineElements': [], 'output.selfClosingStyle': 'xhtml'}})
+        if out3 != out:
+            bad.append(('lines:differ-under-the-xhtml-style', dict(abbr=abbr, syntax=syntax, html_style=out[:200], xhtml_style=out3[:200])))
+    except Exception as e:
+        bad.append(('exception-xhtml-style:%s' % type(e).__name__, str(e)[:120]))
     # formatting must not consume the parsed tree: the same tree formatted twice (and as HTML afterwards) gives the same text
     try:
         cfg = Config({'syntax': syntax, 'options': {'output.indent': indent, 'inlineElements': []}})
@@ -224,6 +232,39 @@ def cases(tier, si):
             yield seq, list(labels), indents
 
 
+def check_text_node(seq, labels, syntax, indent):
+    """A text-only node in the place of a leaf element: how it is written itself is left unspecified, but the lines of all elements
+    after it are the same as when an element `s9` stands there (the depth bookkeeping does not depend on what a leaf is)."""
+    bad = []
+    opts = {'syntax': syntax, 'options': {'output.indent': indent, 'inlineElements': []}}
+    for i in range(1, len(labels)):
+        l_el = list(labels)
+        l_el[i] = 's9'
+        l_tx = list(labels)
+        l_tx[i] = '{t9}'
+        a_el, a_tx = M.render(seq, l_el), M.render(seq, l_tx)
+        try:
+            out_el = expand(a_el, opts).split('\n')
+            out_tx = expand(a_tx, opts).split('\n')
+        except Exception as e:
+            bad.append(('exception:%s' % type(e).__name__, str(e)[:120]))
+            continue
+        marks = [j for j, l in enumerate(out_el) if l.strip().rstrip('/').strip() in ('s9', '%s9')]
+        if not marks:
+            continue
+        j = marks[-1]
+        ind = len(out_el[j]) - len(out_el[j].lstrip())
+        tail = out_el[j + 1:]
+        if not tail or (len(tail[0]) - len(tail[0].lstrip())) > ind:
+            continue              # nothing after it, or it is not a leaf (a text-only node with children is something else)
+        if len(marks) > 1:
+            continue              # repeated: several copies
+        if out_tx[len(out_tx) - len(tail):] != tail:
+            bad.append(('lines:elements-after-a-text-only-node-move', dict(with_element=a_el, with_text_node=a_tx, syntax=syntax,
+                                                                            expected_tail=tail[:8], actual=out_tx[-len(tail) - 1:][:9])))
+    return bad
+
+
 def run_shard(shard, ctx, tier):
     si, k, of = shard['sweep'], shard['k'], shard['of']
     abbr = None
@@ -242,6 +283,10 @@ def run_shard(shard, ctx, tier):
                 abbr, bad = check(seq, labels, syntax, indent)
                 for cls, d in bad:
                     ctx.violation(cls, dict(seq=seq, labels=labels, syntax=syntax, indent=indent), d)
+                if indent == INDENTS[0] and 2 <= len(labels) <= 3 and all(l in TINY for l in labels):
+                    ctx.evals += 2 * (len(labels) - 1)
+                    for cls, d in check_text_node(seq, labels, syntax, indent):
+                        ctx.violation(cls, dict(seq=seq, labels=labels, syntax=syntax, indent=indent, text_node=True), d)
         ctx.outcome((len(labels), tuple(sorted(set(labels)))))
     if abbr:
         ctx.sample(dict(abbr=abbr))
@@ -258,6 +303,8 @@ def _tuplify(seq):
 
 
 def check_case(case):
+    if case.get('text_node'):
+        return check_text_node(_tuplify(case['seq']), case['labels'], case['syntax'], case['indent'])
     return check(_tuplify(case['seq']), case['labels'], case['syntax'], case['indent'])[1]
 
 
